@@ -177,10 +177,17 @@ type abortSignal struct{}
 // traceOn (VS_TRACE=1) prints every scheduling decision to stderr (for reading replays).
 var traceOn = os.Getenv("VS_TRACE") != ""
 
+// RunSeq numbers the executions of this process (shim objects that outlive an execution, such as a
+// package-level sync.Pool, use it to start every execution empty).
+func RunSeq() int { return runSeq }
+
+var runSeq int
+
 func Run(cfg Config, main func()) Result {
 	if s != nil {
 		panic("vs.Run: nested execution")
 	}
+	runSeq++
 	sc := &sched{prefix: cfg.Choices, cfg: cfg, finished: make(chan struct{}), access: map[accessKey]*accessState{}, raceSeen: map[string]bool{}, defaults: map[string]int{}}
 	if sc.cfg.Horizon == 0 {
 		sc.cfg.Horizon = time.Hour
